@@ -15,7 +15,7 @@ RULE = ("implicit: Hypothesis build programs without explicit relations (<= 8 it
         "and earlier), the returned circuit lists the same objects as the flattened one, and "
         "a second flatten() changes neither listing nor schedule. deep_programs: fixed long programs of k sub-circuits x m "
         "sequential gates (6x100, 3x250; thorough also 12x120, 40x50, 2x1200), same clauses. library: repetition-code circuits (d 2..4, 0..6 cycles, "
-        "refocusing on/off; data qubits prepared in every one of the six initial states; built, flattened and read under non-default global duration settings including values that are not exactly representable in binary (0.7/0.1/0.1/0.3, 3e-7/2e-8/6e-8/5e-7, ...); long experiments of 30 and 45 cycles, thorough up to 200 cycles, multi-round up to 60 cycles per block), the simplified constructor, multi-round experiments and calibration circuits, modifiers "
+        "refocusing on/off; data qubits prepared in every one of the six initial states; built, flattened and read under non-default global duration settings (also crossed with the six initial states) including values that are not exactly representable in binary (0.7/0.1/0.1/0.3, 3e-7/2e-8/6e-8/5e-7, ...); long experiments of 30 and 45 cycles, thorough up to 200 cycles, multi-round up to 60 cycles per block), the simplified constructor, multi-round experiments and calibration circuits, modifiers "
         "applied: listing signature sequence, schedule, duration, acquisition indices (per qubit and per tag) and the "
         "exported Stim text are identical before and after flatten(). Non-trivial = nesting depth >= 2 or >= 2 sibling "
         "sub-circuits; distinct = canonical JSON.")
@@ -140,6 +140,12 @@ def items_library(tier):
     settings = [[0.7, 0.1, 0.1, 0.3], [1.1, 0.3, 0.2, 0.7], [0.3, 0.1, 0.1, 0.3], [4.0, 1.0, 2.0, 2.0], [3e-7, 2e-8, 6e-8, 5e-7]]
     if tier != "quick":
         settings += [[0.9, 0.3, 0.1, 0.1], [0.5, 0.7, 0.2, 0.3], [2.0, 1.0, 0.5, 7.0], [1.7e-6, 4e-8, 1.2e-7, 3e-7]]
+    # ... crossed with the six initial states (a preparation gate whose duration follows another setting than its neighbours')
+    for g in ([4.0, 1.0, 2.0, 2.0], [2.0, 3.0, 1.0, 2.0], [1.1, 0.3, 0.2, 0.7]):
+        for shift in range(6):
+            yield {"ctor": "repcode", "d": 3, "cycles": 2, "states": [six[(shift + 2 * i) % 6] for i in range(3)], "durations": g}
+            if tier != "quick":
+                yield {"ctor": "multi", "d": 3, "rounds": [2, 1], "states": [six[(shift + i) % 6] for i in range(3)], "durations": g}
     for g in settings:
         for d in (2, 3):
             yield {"ctor": "simplified", "d": d, "cycles": 2 + (d % 2), "durations": g}
